@@ -65,12 +65,261 @@ structure KillSt where
   /-- a kill was made while the ring was rotated (see `closeRun`) -/
   killedRotated : Bool := false
 
+/-! ### C06, vi mode
+
+The callbacks show one entry per COMMAND key: of an operator group (`d`/`c`/`y` + [count] + motion,
+`dd`, `dfx` …) only the operator key is seen (with the count typed before it), the motion is read
+inside the key map.  So a `d`/`c` group that removed text is either a kill command or, when the motion
+was a character motion (`dl`, `d3h`, `cl` = `s`), a character deletion that "neither enters nor
+extends the kill": both readings are followed (`ViW` = one reading) and a put must agree with one of
+them; the put then tells which readings remain.  There is no yank-pop in vi mode, so only the most
+recent kill matters and knowledge lost (`top = none`) is regained by the next kill run that starts
+after a command that is certainly not a kill. -/
+
+/-- what is known of the most recent kill -/
+inductive ViTop
+  | known (x : Option Text)      -- `none`: nothing killed in this read
+  | unknown
+  /-- a `y` group ran on `line`: it put a piece of that line into the ring, or (cancelled, nothing to
+      copy) left the earlier `prev` (`none`: not known) -/
+  | copied (line : Text) (prev : Option (Option Text))
+deriving BEq
+
+structure ViW where
+  top : ViTop := .known none
+  /-- only for naming a failure: what `top` is if spans with the cursor inside are appended as one block -/
+  alt : Option Text := none
+  /-- only for naming a failure: the run that produced `top` started directly after a `y` group -/
+  copy : Bool := false
+  /-- the kill run in progress: line before its first kill -/
+  run : Option Text := none
+  runAlt : Text := []
+  runRange : Bool := false
+  runCopy : Bool := false
+  /-- the last action may be a kill whose slot is not followed: a kill now extends something unknown -/
+  stale : Bool := false
+  /-- nothing but kills since a `y` group -/
+  afterCopy : Bool := false
+deriving BEq
+
+inductive ViKey
+  | group        -- `d`, `c`: operator + motion, judged by what it removed
+  | kill         -- `D`, `C`, `S`, C-k, C-u, C-w
+  | charDelete   -- `x`, `X`, Delete, Backspace / C-h in insert mode
+  | putBefore | putAfter
+  | copy         -- `y` + motion
+  | neutral      -- commands without effect (`i`, Esc, C-l, `;` …) and `s` / `R`: what the next kill joins is not determined
+  | repeat_      -- `.`
+  | skip         -- Alt-<key> in insert mode: the same key is reported again as a command-mode key
+  | opaque       -- searches, completion, pastes, multi-key bindings
+  | other        -- any other command: certainly not a kill
+deriving DecidableEq
+
+def classifyVi (cb : Obs) : ViKey :=
+  match cb.keys with
+  | [k] =>
+    if cb.mode != "vc" then
+      if (match k.code with | .char _ => k.mods == 4 | _ => false) then .skip
+      else if k == ⟨.char 'W', 8⟩ || k == ⟨.char 'U', 8⟩ then .kill
+      else if k == ⟨.backspace, 0⟩ || k == ⟨.char 'H', 8⟩ || k == ⟨.delete, 0⟩ then .charDelete
+      else if k == ⟨.char 'Y', 8⟩ then .putBefore
+      else if k == ⟨.unknownEscSeq, 0⟩ || k == ⟨.char 'Z', 8⟩ then .neutral
+      else if k == ⟨.tab, 0⟩ || k == ⟨.char 'I', 8⟩ || k == ⟨.backTab, 0⟩ || k == ⟨.char 'R', 8⟩
+          || k == ⟨.char 'S', 8⟩ || k == ⟨.bracketedPasteStart, 0⟩ then .opaque
+      else .other
+    else
+      if k == ⟨.char 'd', 0⟩ || k == ⟨.char 'c', 0⟩ then .group
+      else if k == ⟨.char 'D', 0⟩ || k == ⟨.char 'C', 0⟩ || k == ⟨.char 'S', 0⟩
+          || k == ⟨.char 'K', 8⟩ || k == ⟨.char 'U', 8⟩ || k == ⟨.char 'W', 8⟩ then .kill
+      else if k == ⟨.char 'x', 0⟩ || k == ⟨.char 'X', 0⟩ || k == ⟨.delete, 0⟩ then .charDelete
+      else if k == ⟨.char 'P', 0⟩ || k == ⟨.char 'Y', 8⟩ then .putBefore
+      else if k == ⟨.char 'p', 0⟩ then .putAfter
+      else if k == ⟨.char 'y', 0⟩ then .copy
+      else if k == ⟨.char '.', 0⟩ then .repeat_
+      else if k == ⟨.char 'i', 0⟩ || k == ⟨.char ';', 0⟩ || k == ⟨.char ',', 0⟩ || k == ⟨.char 'r', 0⟩
+          || k == ⟨.char 'R', 0⟩ || k == ⟨.char 's', 0⟩ || k == ⟨.esc, 0⟩ || k == ⟨.char 'L', 8⟩
+          || k == ⟨.unknownEscSeq, 0⟩ || k == ⟨.char 'Z', 8⟩ then .neutral
+      else if k == ⟨.char 'R', 8⟩ || k == ⟨.char 'S', 8⟩ || k == ⟨.bracketedPasteStart, 0⟩ then .opaque
+      else .other
+  | _ => .opaque
+
+inductive SpanKind | forward | backward | range
+deriving DecidableEq
+
+/-- the step removed `x` at the cursor it left behind; where the cursor stood relative to the span -/
+def viRemoved (cb : Obs) (nl : Text) (np : Option Nat) : Option (Text × SpanKind) :=
+  match np with
+  | none => none
+  | some q =>
+    match removedAt cb.line nl q with
+    | none => none
+    | some x =>
+      if x.isEmpty then none
+      else if q == cb.pos then some (x, .forward)
+      else if q + blen x == cb.pos then some (x, .backward)
+      else if q < cb.pos && cb.pos < q + blen x then some (x, .range)
+      else none
+
+/-- the span `x` removed at offset `q` of `l` consists of whole lines (`dd`, `cc`, `S`, `dj`, `dk`) -/
+def lineAligned (l : Text) (q : Nat) (x : Text) : Bool :=
+  match splitAtByte l q, splitAtByte l (q + blen x) with
+  | some (a, _), some (_, b) =>
+    (a.isEmpty || a.getLast? == some '\n' || x.head? == some '\n')
+      && (b.isEmpty || b.head? == some '\n' || x.getLast? == some '\n')
+  | _, _ => false
+
+namespace ViW
+
+/-- the run ends at callback `cb` (its line is the text after the last kill, the cursor where the text went) -/
+def close (w : ViW) (cb : Obs) : ViW :=
+  match w.run with
+  | none => w
+  | some l0 =>
+    let w' := { w with run := none, runAlt := [], runRange := false, runCopy := false }
+    if l0 == cb.line then w'
+    else
+      match removedAt l0 cb.line cb.pos with
+      | some x => { w' with top := .known (some x), copy := w.runCopy,
+                            alt := if w.runRange && w.runAlt != x then some w.runAlt else none }
+      | none => { w' with top := .unknown, alt := none, copy := false }
+
+/-- a command that is certainly not a kill -/
+def reset (w : ViW) (cb : Obs) : ViW := { w.close cb with stale := false, afterCopy := false }
+
+def kill (w : ViW) (cb : Obs) (x : Text) (kind : SpanKind) (q : Nat) : ViW :=
+  if w.stale then { w with top := .unknown, alt := none, copy := false }
+  else
+    -- only for naming a failure: a whole-line span with text before the cursor, appended as one block
+    let block := kind != .forward && lineAligned cb.line q x
+    match w.run with
+    | none => { w with run := some cb.line, runAlt := x, runRange := block, runCopy := w.afterCopy }
+    | some _ => { w with runAlt := (if kind == .backward && !block then x ++ w.runAlt else w.runAlt ++ x),
+                         runRange := w.runRange || block }
+
+/-- a kill command that removed nothing: transparent, or (the code reports the empty text to the ring,
+    e.g. `dTx` with the target next to the cursor) a kill of "" -/
+def emptyKill (w : ViW) : ViW :=
+  if w.stale || w.run.isSome then w else { w with top := .known (some []), alt := none, copy := false }
+
+def neutral (w : ViW) (cb : Obs) : ViW :=
+  if w.run.isSome then { w.close cb with top := .unknown, alt := none, copy := false, stale := true } else w
+
+def copied (w : ViW) (cb : Obs) : ViW :=
+  let w' := w.reset cb
+  let prev : Option (Option Text) := match w'.top with | .known v => some v | _ => none
+  { w' with top := .copied cb.line prev, alt := none, copy := false, afterCopy := true }
+
+def unknown : ViW := { top := .unknown, stale := true }
+
+end ViW
+
+def viCap (ws : List ViW) : List ViW :=
+  let ws := ws.foldl (fun acc w => if acc.contains w then acc else acc ++ [w]) []
+  if ws.length > 24 then [ViW.unknown] else ws
+
+/-- byte offsets of the character boundaries behind `p` -/
+def boundariesAfter (l : Text) (p : Nat) : List Nat :=
+  ((l.foldl (fun (acc : List Nat × Nat) c => (acc.1 ++ [acc.2 + c.utf8Size], acc.2 + c.utf8Size)) ([], 0)).1).filter (· > p)
+
+/-- where a put may insert: `P` at the cursor; `p` behind the character under the cursor (the callbacks
+    do not say how long that character is), at the cursor when there is none -/
+def putOffsets (after : Bool) (cb : Obs) : List Nat :=
+  if !after || cb.pos ≥ blen cb.line then [cb.pos] else boundariesAfter cb.line cb.pos
+
+def commonPrefixLen : Text → Text → Nat
+  | a :: as, b :: bs => if a == b then commonPrefixLen as bs + 1 else 0
+  | _, _ => 0
+
+def isInfixOfText (y : Text) : Text → Bool
+  | [] => y.isEmpty
+  | c :: t => y.isPrefixOf (c :: t) || isInfixOfText y t
+
+/-- `y = u ++ t ++ v` with `u ++ v = x` and `t` not empty -/
+def joinedAround (y x : Text) : Bool :=
+  let lp := commonPrefixLen y x
+  y.length > x.length && y.drop (y.length - (x.length - lp)) == x.drop lp
+
+/-- `y` is `n` copies of the answer -/
+def unrep (n : Nat) (y : Text) : Option Text :=
+  let n := max n 1
+  let t := y.take (y.length / n)
+  if (List.replicate n t).flatten == y then some t else none
+
+def oracleC06Vi (o : ImplObs) : OVerdict :=
+  let rec go (k : Nat) (ws : List ViW) : List (Obs × Text × Option Nat) → OVerdict
+    | [] => none
+    | (cb, nl, np) :: rest =>
+      match classifyVi cb with
+      | .skip => go (k + 1) ws rest
+      | .opaque => none
+      | .group =>
+        if nl == cb.line then
+          -- cancelled, unknown motion (a command that is not a kill) or nothing to remove (transparent)
+          go (k + 1) (viCap (ws ++ ws.map (·.emptyKill) ++ ws.map (·.reset cb))) rest
+        else
+          match viRemoved cb nl np with
+          | none => go (k + 1) [ViW.unknown] rest
+          | some (x, kind) =>
+            let killed := ws.map (·.kill cb x kind (np.getD 0))
+            -- a character motion has the cursor at one end of what it removes
+            let deleted := if kind == .range then [] else ws.map (·.reset cb)
+            go (k + 1) (viCap (killed ++ deleted)) rest
+      | .kill =>
+        if nl == cb.line then go (k + 1) (viCap (ws ++ ws.map (·.emptyKill))) rest
+        else
+          match viRemoved cb nl np with
+          | none => go (k + 1) [ViW.unknown] rest
+          | some (x, kind) => go (k + 1) (viCap (ws.map (·.kill cb x kind (np.getD 0)))) rest
+      | .charDelete | .other => go (k + 1) (viCap (ws.map (·.reset cb))) rest
+      | .neutral => go (k + 1) (viCap (ws.map (·.neutral cb))) rest
+      | .repeat_ => go (k + 1) [ViW.unknown] rest
+      | .copy => go (k + 1) (viCap (ws.map (·.copied cb))) rest
+      | .putBefore => put k ws cb nl false (fun ws' => go (k + 1) ws' rest)
+      | .putAfter => put k ws cb nl true (fun ws' => go (k + 1) ws' rest)
+  match o.cbs with
+  | [] => none
+  | _ :: _ => go 0 [{}] o.steps
+where
+  put (k : Nat) (ws : List ViW) (cb : Obs) (nl : Text) (after : Bool) (cont : List ViW → OVerdict) : OVerdict :=
+    let ws1 := ws.map (·.close cb)
+    let settle (w : ViW) : ViW := { w with stale := false, afterCopy := false }
+    if cb.n > 1000 || ws1.any (·.top == .unknown) then cont (viCap (ws1.map settle))
+    else
+      let qs := putOffsets after cb
+      -- what was inserted (one copy of it, when a count asked for several)
+      let ys := (qs.filterMap (fun q => removedAt nl cb.line q)).filterMap (unrep cb.n)
+      let pastes (v : Option Text) : Bool :=
+        match v with
+        | some x => qs.any (fun q => insertTextAt cb.line q (List.replicate (max cb.n 1) x).flatten == some nl)
+        | none => nl == cb.line
+      let agrees (w : ViW) : Bool :=
+        match w.top with
+        | .known v => pastes v
+        | .unknown => true
+        | .copied line prev =>
+          ys.any (fun y => !y.isEmpty && isInfixOfText y line)
+            || (match prev with | some v => pastes v | none => true)
+      let ok := ws1.filter agrees
+      if !ok.isEmpty then cont (viCap (ok.map settle))
+      else
+        match ws1.head? with
+        | some h =>
+          match h.top with
+          | .known (some x) =>
+            if h.copy && ys.any (fun y => joinedAround y x) then
+              some s!"C06:kill-directly-after-vi-yank-to-was-joined-to-the-copied-text(cb {k})"
+            else if (h.alt.map (fun a => ys.contains a)).getD false then
+              some s!"C06:whole-line-kill-joined-as-one-block-broke-the-left-to-right-order(cb {k})"
+            else some s!"C06:vi-put-did-not-reinsert-exactly-the-killed-text(cb {k})"
+          | _ => some s!"C06:vi-put-with-nothing-killed-changed-the-text(cb {k})"
+        | none => none
+
 def oracleC06 (o : ImplObs) : OVerdict :=
   let rec go (k : Nat) (st : KillSt) : List (Obs × Text × Option Nat) → OVerdict
     | [] => none
     | (cb, nl, np) :: rest =>
       if cb.mode != "e" then
-        -- vi: only the kill∘yank identity for `d`/`D`/`c`/`C` … `P` is judged, see `oracleC06Vi`
+        -- unreachable: a read is in one edit mode throughout, vi reads are judged by `oracleC06Vi`
         go (k + 1) { st with ring := none, runStart := none, lastYank := none } rest
       else
       match classifyEmacs cb with
@@ -94,8 +343,9 @@ def oracleC06 (o : ImplObs) : OVerdict :=
         let st := closeRun st cb
         match st.ring with
         | some (x0 :: xs) =>
-          let x := ((x0 :: xs)[st.rot]?).getD x0
-          if cb.n != 1 then go (k + 1) { st with ring := none, fresh := true, lastYank := none } rest
+          -- a numeric argument n inserts n copies; a yank-pop directly after it has to replace all of them
+          let x := (List.replicate (max cb.n 1) (((x0 :: xs)[st.rot]?).getD x0)).flatten
+          if cb.n > 1000 then go (k + 1) { st with ring := none, fresh := true, lastYank := none } rest
           else
             match insertTextAt cb.line cb.pos x with
             | none => go (k + 1) { st with fresh := true, lastYank := none } rest
@@ -141,13 +391,17 @@ def oracleC06 (o : ImplObs) : OVerdict :=
       | .undo => go (k + 1) { (closeRun st cb) with ring := none, fresh := true, lastYank := none } rest
       | .other =>
         let st := closeRun st cb
-        -- multi-key commands (C-x …, C-v, searches, completion, digit arguments…) may hide kills
+        -- multi-key commands (C-x …) may hide kills.  An incremental search or a completion hides
+        -- nothing: every key typed inside the sub-loop has its own callback, the key that ends the loop
+        -- is executed as a command on the line its callback shows, and the command that started the loop
+        -- is not a kill, so a kill / yank / yank-pop that ends the loop is judged like any other
         let isOpaque : Bool := match cb.keys with
-          | [key] => key == ⟨.char 'X', 8⟩ || key == ⟨.char 'R', 8⟩ || key == ⟨.tab, 0⟩ || key == ⟨.char 'I', 8⟩
-                     || key == ⟨.bracketedPasteStart, 0⟩
+          | [key] => key == ⟨.char 'X', 8⟩ || key == ⟨.bracketedPasteStart, 0⟩
           | _ => true
         go (k + 1) { st with fresh := true, lastYank := none, ring := if isOpaque then none else st.ring } rest
-  go 0 {} o.steps
+  match o.cbs with
+  | cb0 :: _ => if cb0.mode != "e" then oracleC06Vi o else go 0 {} o.steps
+  | [] => none
 where
   /-- the run ends at callback `cb` (its line is the text after the last kill) -/
   closeRun (st : KillSt) (cb : Obs) : KillSt :=
@@ -176,6 +430,178 @@ def singleCharEdit (a b : Text) : Bool :=
   else if b.length + 1 == a.length then diff1 a b
   else false
 
+/-! ### C05, vi mode
+
+The machine keeps its own log of the read: the texts the line went through (newest first), each with
+a mark "the edit that led here was word-sized or larger".  A single Undo must land on a text of that
+log that is not older than the state right before the most recent marked edit.  A vi insert session
+opened by a command (`i a A I c C s S R`, from that command to the return to command mode) is an
+explicit group: when it is left, the marks inside it are dropped and the session as a whole becomes
+one edit (marked when it is word-sized), so Undo may take it back in one step or in smaller ones.
+The typing at the start of the read is judged key by key as in emacs mode (a typed alphanumeric may
+merge into the pre-filled text or a preceding paste: D22, not judged).
+After an Undo the log is cut back to the text it landed on (when that text occurs more than once in
+the admissible part: to the newest occurrence, dropping the marks down to the oldest one), so the
+following Undo is judged as well.  What the callbacks do not determine (history recall, searches,
+completion, indent, pastes, Undo with a count) empties the log; the rule is silent until the next
+marked edit. -/
+
+/-- same length, exactly one position differs -/
+def singleSubst : Text → Text → Bool
+  | x :: xs, y :: ys => if x == y then singleSubst xs ys else xs == ys
+  | _, _ => false
+
+def smallEdit (a b : Text) : Bool := a == b || singleCharEdit a b || singleSubst a b
+
+/-- the texts from the newest down to the state before the most recent marked edit -/
+def allowedOf : List (Text × Bool) → Option (List Text)
+  | [] => none
+  | [(_, _)] => none
+  | (t, true) :: (b, _) :: _ => some [t, b]
+  | (t, false) :: rest => (allowedOf rest).map (t :: ·)
+
+structure UndoVi where
+  seen : List Text
+  hist : List (Text × Bool)
+  /-- inside an insert session: the length of `hist` when it started (`some none`: not known) -/
+  sess : Option (Option Nat)
+  /-- 0: main loop, 1: incremental search, 2: completion -/
+  sub : Nat := 0
+  prevIns : Bool := true
+  /-- only for naming a failure (D38): inside the current session an Undo found nothing left of the session -/
+  beginPopped : Bool := false
+  strayEnd : Bool := false
+  /-- only for naming a failure (D39): `.` was used in command mode -/
+  dotSeen : Bool := false
+
+namespace UndoVi
+
+/-- the log must show the text of the callback on top; otherwise it is started afresh -/
+def sync (st : UndoVi) (cb : Obs) : UndoVi :=
+  let seen := if st.seen.contains cb.line then st.seen else cb.line :: st.seen
+  if st.hist.head?.map (·.1) == some cb.line then { st with seen }
+  else { st with seen, hist := [(cb.line, false)], sess := st.sess.map (fun _ => none) }
+
+def lose (st : UndoVi) : UndoVi := { st with hist := [], sess := st.sess.map (fun _ => none) }
+
+/-- leaving insert mode: the session becomes one edit -/
+def closeSession (st : UndoVi) : UndoVi :=
+  let st' := { st with sess := none, beginPopped := false, strayEnd := st.strayEnd || st.beginPopped }
+  match st.sess with
+  | none => st
+  | some none => { st' with hist := st.hist.map (fun (t, _) => (t, false)) }
+  | some (some d) =>
+    let k := st.hist.length - d
+    if k == 0 then st'
+    else
+      let inner := st.hist.take k
+      let rest := st.hist.drop k
+      let big : Bool := inner.any (·.2) ||
+        (match rest.head?, inner.head? with
+         | some (b, _), some (t, _) => !smallEdit b t
+         | _, _ => true)
+      let inner' := (inner.zipIdx).map (fun ((t, _), i) => (t, i + 1 == k && big))
+      { st' with hist := inner' ++ rest }
+
+/-- cut the log back to the text an Undo landed on, looking at the first `m` entries -/
+def landOn (st : UndoVi) (nl : Text) (m : Nat) : UndoVi :=
+  let idxs := ((st.hist.take m).zipIdx).filterMap (fun ((t, _), i) => if t == nl then some i else none)
+  match idxs.head?, idxs.getLast? with
+  | some a, some b =>
+    let h := st.hist.drop a
+    let h := (h.zipIdx).map (fun ((t, f), i) => (t, f && i ≥ b - a))
+    let sess := match st.sess with
+      | some (some d) => some (some (min d h.length))
+      | other => other
+    let popped := match st.sess with
+      | some (some d) => h.length < d
+      | _ => false
+    { st with hist := h, sess, beginPopped := st.beginPopped || popped }
+  | _, _ => st.lose
+
+end UndoVi
+
+def oracleC05Vi (hasCompleter : Bool) (histNonEmpty : Bool) (o : ImplObs) : OVerdict :=
+  let rec go (k : Nat) (st : UndoVi) : List Obs → OVerdict
+    | [] => none
+    | cb :: rest =>
+      -- the text after this key's command, and whether the next callback is in insert / replace mode
+      let nlOpt : Option Text := match rest with | b :: _ => some b.line | [] => o.returnedLine
+      match nlOpt with
+      | none => none
+      | some nl =>
+      let nextIns : Bool := match rest with | b :: _ => b.mode != "vc" | [] => false
+      let st := st.sync cb
+      let st := if cb.mode == "vc" && st.prevIns then st.closeSession else st
+      let st := { st with prevIns := cb.mode != "vc" }
+      match cb.keys with
+      | [key] =>
+        -- Alt-<key> in insert mode: the same key is reported again as a command-mode key
+        -- (a sub-loop does not swallow it: it ends there)
+        if cb.mode != "vc" && (match key.code with | .char _ => key.mods == 4 | _ => false) then
+          go (k + 1) (if st.sub != 0 then { st.lose with sub := 0 } else st) rest
+        else
+        -- the sub-loops swallow their own keys; any other key ends them and is then executed
+        let consumed : Bool :=
+          (st.sub == 1 && searchConsumes cb.mode key) || (st.sub == 2 && completionConsumes cb.mode key)
+        if consumed then go (k + 1) st.lose rest
+        else
+        let st := if st.sub != 0 then { st.lose with sub := 0 } else st
+        -- a command-mode key after which the read is in insert mode opens a session that contains its own edit
+        -- (C-r / C-s switch to insert mode without opening a group: what is typed then is judged key by key)
+        let modeSwitch : Bool := key == ⟨.char 'R', 8⟩ || key == ⟨.char 'S', 8⟩
+        let st := if cb.mode == "vc" && nextIns && st.sess.isNone && !modeSwitch then { st with sess := some (some st.hist.length) } else st
+        let isUndo : Bool := key == ⟨.char '_', 8⟩ || (cb.mode == "vc" && key == ⟨.char 'u', 0⟩)
+        if isUndo then
+          -- inside an open insert session an Undo may also take back the session so far (the group it is)
+          let sessStart : Option (Nat × Text) := match st.sess with
+            | some (some d) => if d ≤ st.hist.length then (st.hist[st.hist.length - d]?).map (fun e => (st.hist.length - d + 1, e.1)) else none
+            | _ => none
+          let region : Option (List Text × Nat) := (allowedOf st.hist).map (fun a =>
+            match sessStart with
+            | some (m, t) => (t :: a, max a.length m)
+            | none => (a, a.length))
+          if nl == cb.line then
+            -- nothing left to undo, nothing left of the open session, or a unit whose net effect is nil:
+            -- the log may be anywhere down to the oldest admissible occurrence of this text
+            let st := st.landOn nl (if cb.n > 1 then st.hist.length else (region.map (·.2)).getD st.hist.length)
+            go (k + 1) { st with beginPopped := st.beginPopped || st.sess.isSome } rest
+          else if cb.n > 1 then go (k + 1) (st.landOn nl st.hist.length) rest
+          else
+            match region with
+            | some (allowed, m) =>
+              if !allowed.contains nl then
+                -- (the unmatched End marker is pushed when the session is left, or by a grouped command inside it)
+                if st.strayEnd || st.beginPopped then
+                  some s!"C05:undo-ran-past-the-last-word-sized-edit-after-an-undo-had-emptied-an-open-insert-session(cb {k})"
+                else if st.dotSeen then
+                  some s!"C05:undo-ran-past-the-last-word-sized-edit-after-a-repeated-change-command(cb {k})"
+                else some s!"C05:undo-jumped-past-the-state-before-the-last-word-sized-edit(cb {k})"
+              else go (k + 1) (st.landOn nl m) rest
+            | none => go (k + 1) (st.landOn nl st.hist.length) rest
+        else if key == ⟨.char 'R', 8⟩ && histNonEmpty then go (k + 1) { st.lose with sub := 1 } rest
+        else if cb.mode != "vc" && (key == ⟨.tab, 0⟩ || key == ⟨.char 'I', 8⟩) && hasCompleter then
+          go (k + 1) { st.lose with sub := 2 } rest
+        else
+          let isOpaque : Bool :=
+            key == ⟨.char 'P', 8⟩ || key == ⟨.char 'N', 8⟩ || key == ⟨.up, 0⟩ || key == ⟨.down, 0⟩
+              || key == ⟨.bracketedPasteStart, 0⟩ || key == ⟨.tab, 0⟩ || key == ⟨.char 'I', 8⟩ || key == ⟨.backTab, 0⟩
+              || key == ⟨.char 'R', 8⟩ || key == ⟨.char 'S', 8⟩
+              || (cb.mode == "vc" && (key == ⟨.char 'j', 0⟩ || key == ⟨.char 'k', 0⟩ || key == ⟨.char '+', 0⟩
+                    || key == ⟨.char '-', 0⟩ || key == ⟨.char '<', 0⟩ || key == ⟨.char '>', 0⟩))
+          let st := if cb.mode == "vc" && key == ⟨.char '.', 0⟩ then { st with dotSeen := true } else st
+          if modeSwitch then go (k + 1) st.lose rest
+          else if nl == cb.line then go (k + 1) st rest
+          else if isOpaque then go (k + 1) st.lose rest
+          else go (k + 1) { st with hist := (nl, !smallEdit cb.line nl) :: st.hist } rest
+      | _ => go (k + 1) st.lose rest
+  match o.cbs with
+  | [] => none
+  | cb0 :: _ =>
+    -- pre-filled initial text is the first undoable edit
+    let hist0 : List (Text × Bool) := if cb0.line.isEmpty then [([], false)] else [(cb0.line, true), ([], false)]
+    go 0 { seen := [[]], hist := hist0, sess := none } o.cbs
+
 /-- Emacs mode, `C-_` with count 1 (reading decisions: DESIGN.md 7.1, C05).
     * The text after an Undo is a text the line had earlier in this read (at a callback), or "".
     * An Undo never jumps past the state that preceded the most recent word-sized-or-larger edit:
@@ -193,8 +619,7 @@ def oracleC05 (hasCompleter : Bool) (histNonEmpty : Bool) (o : ImplObs) : OVerdi
     | (cb, nl, _) :: rest =>
       let seen := if seen.contains cb.line then seen else cb.line :: seen
       if cb.mode != "e" then
-        -- vi insert sessions are explicit groups and multi-line indents have unobserved
-        -- intermediate texts: vi is left to the correspondence with the model
+        -- unreachable: a read is in one edit mode throughout, vi reads are judged by `oracleC05Vi`
         go (k + 1) seen none none rest
       else
       -- a key the completion loop does not consume ends the loop and is then executed like any
@@ -256,6 +681,8 @@ def oracleC05 (hasCompleter : Bool) (histNonEmpty : Bool) (o : ImplObs) : OVerdi
               -- a word-sized-or-larger edit: from here on an Undo may reach back to the text before it
               go (k + 1) seen (some [nl, cb.line]) none rest
         | _ => go (k + 1) seen none none rest
-  go 0 [[]] none none o.steps
+  match o.cbs with
+  | cb0 :: _ => if cb0.mode != "e" then oracleC05Vi hasCompleter histNonEmpty o else go 0 [[]] none none o.steps
+  | [] => none
 
 end Rl.Spec
